@@ -6,34 +6,11 @@ import os
 HERE = os.path.dirname(os.path.dirname(os.path.abspath(__file__)))
 ALL = [f"C{i:02d}" for i in range(1, 21)]
 
-CLAIMED = {
-    "C17": {
-        "text": "Lean 4 theorems over a state-machine model of settings.py (exit_restores_entry_value, no_cross_talk, "
-                "dtype_slot_isolated, exception_exit_same, lifo_restores_all: all histories, all nesting depths, arbitrary class "
-                "table) plus decide+kernel obligations over the class/composite table regenerated from settings.py on every run; "
-                "the hand-written step function is tied to the code by an exact differential correspondence on random event "
-                "histories (every class, both composites, pre-constructed / re-used / non-LIFO objects, exceptional exits).",
-        "note": "Trusted: Lean kernel, axioms propext/Quot.sound/Classical.choice at most, the ast extractor (cross-checked against "
-                "vars(settings) at run time), the Python correspondence harness. Modelled, not verified: Python's with-protocol and "
-                "attribute semantics; values are opaque codes.",
-        "technique": "Lean 4 proof (invariant over event histories) + generated table obligations + differential correspondence",
-        "design_ref": "DESIGN.md §5 C17",
-    },
-    "C18": {
-        "text": "Lean 4 theorems (Mathlib matrices, all sizes / block counts / sample counts): every sampler is a fixed linear map L of "
-                "the noise it draws (generic_linear, diag_linear, blockDiag_linear, blockInterleaved_linear, sumBatch_linear, interp_linear) "
-                "and L L^T equals the represented covariance given the sub-sampler's root (diag_cov, identity_cov, blockDiag_cov, "
-                "blockInterleaved_cov, sumBatch_cov, interp_cov). The layout model is tied to the code by an exact-rational "
-                "correspondence on the library's own draws under a patched torch.randn; the property is checked on the implementation by "
-                "recovering the sampler's full linear map with one-hot noise and comparing L L^T with the independent dense covariance "
-                "(every PSD class, nestings, batches, n in {1,3,4}, both sides of max_cholesky_size, fast root off, CIQ).",
-        "note": "Trusted: Lean kernel + propext/Quot.sound/Classical.choice, the Python harness and catalogue (independent dense definitions). "
-                "Not modelled: probability (x = L z has covariance L L^T), floating point, the contour-integral sampler (checked numerically "
-                "only, tolerance 2e-2), correctness of root_decomposition itself (C06).",
-        "technique": "Lean 4 proof (matrix algebra of sampler layouts) + differential correspondence with patched noise",
-        "design_ref": "DESIGN.md §5 C18",
-    },
-}
+CLAIMED = {}
+_d = os.path.join(HERE, "notes", "manifest")
+for _f in sorted(os.listdir(_d)):
+    if _f.endswith(".json"):
+        CLAIMED[_f[:-5]] = json.load(open(os.path.join(_d, _f)))
 
 NOT_YET = "machinery for this property is not built yet in this session (see DESIGN.md §9 staging); no check is claimed"
 
